@@ -149,6 +149,7 @@ package queryparser
 //@   ensures l.rd == old(l.rd) + 1
 //@   ensures old(l.rd) < l.ntoks ==> it.typ == l.ttyp[old(l.rd)] && it.pos == l.tstart[old(l.rd)]
 //@   ensures old(l.rd) >= l.ntoks ==> it.typ == 0 && it.pos == 0
+//@   ensures item_text_is_the_input_between_its_positions: old(l.rd) < l.ntoks && it.typ != 0 ==> it.val == substr(l.input, l.tstart[old(l.rd)], l.tend[old(l.rd)])
 //@   ensures l.lastPos == it.pos
 // drain: receives until the channel is closed — afterwards every item has been received and the goroutine has returned
 //@ trusted func (*lexer).drain(l)
@@ -158,16 +159,19 @@ package queryparser
 
 // ---- parser
 //@ pure tokTyp(l *lexer, j int) int := (j < l.ntoks) ? l.ttyp[j] : 0
+//@ pure tokVal(l *lexer, j int) string := substr(l.input, l.tstart[j], l.tend[j])
 //@ pred PInv(p *parser) := p != nil && p.lexer != nil && Stopped(p.lexer) && 0 <= p.peekCount && p.peekCount <= 1 && p.peekCount <= p.lexer.rd
 //@   && 0 <= p.lexer.lastPos && p.lexer.lastPos <= len(p.lexer.input)
 //@   && (forall j int :: 0 <= j && j < p.lexer.ntoks ==> 0 <= p.lexer.tstart[j] && p.lexer.tstart[j] <= len(p.lexer.input))
 //@   && (p.peekCount == 1 ==> p.token[0].typ == tokTyp(p.lexer, p.lexer.rd - 1))
+//@   && (p.peekCount == 1 && p.token[0].typ != 0 ==> p.token[0].val == tokVal(p.lexer, p.lexer.rd - 1))
 //@ pure cn(p *parser) int := p.lexer.rd - p.peekCount
 
 //@ func [C09] (*parser).peek(p) (it)
 //@   requires PInv(p)
 //@   modifies p.peekCount; p.token[*]; p.lexer.rd; p.lexer.lastPos
 //@   ensures [C09] PInv(p) && p.peekCount == 1 && it.typ == tokTyp(p.lexer, p.lexer.rd - 1)
+//@   ensures [C09] it.typ != 0 ==> it.val == tokVal(p.lexer, p.lexer.rd - 1)
 //@   ensures [C09] consumes_nothing: old(p.peekCount) == 1 ==> p.lexer.rd == old(p.lexer.rd)
 //@   ensures [C09] old(p.peekCount) == 0 ==> p.lexer.rd == old(p.lexer.rd) + 1
 
@@ -177,6 +181,8 @@ package queryparser
 //@   ensures [C09] PInv(p) && p.peekCount == 0
 //@   ensures [C09] old(p.peekCount) == 1 ==> p.lexer.rd == old(p.lexer.rd) && it.typ == tokTyp(p.lexer, p.lexer.rd - 1)
 //@   ensures [C09] old(p.peekCount) == 0 ==> p.lexer.rd == old(p.lexer.rd) + 1 && it.typ == tokTyp(p.lexer, p.lexer.rd - 1)
+//@   ensures [C09] it.typ != 0 ==> it.val == tokVal(p.lexer, p.lexer.rd - 1)
+//@   ensures [C09] consumes_exactly_one_item: cn(p) == old(cn(p)) + 1 && p.lexer == old(p.lexer)
 
 // errorf never returns: it panics with an error value (which parser.recover turns into the returned error)
 //@ func [C09] (*parser).errorf(p, fmtstr, args)
@@ -225,17 +231,33 @@ package queryparser
 //@   ensures [C09] placeholder_representable: typeof(e.Value) == ptrtag(updogv1.Query_Expression_Eq) && iref(e.Value) != nil
 //@        && e.Value.(*updogv1.Query_Expression_Eq).Eq != nil && 0 <= e.Value.(*updogv1.Query_Expression_Eq).Eq.Placeholder
 //@        && e.Value.(*updogv1.Query_Expression_Eq).Eq.Placeholder <= 2147483647
+//@   ensures [C09] three_items: cn(p) == old(cn(p)) + 3 && p.lexer == old(p.lexer) && tokTyp(p.lexer, old(cn(p)) + 1) == 7
+//@   ensures [C09] placeholder_number_is_the_one_written: tokTyp(p.lexer, old(cn(p)) + 2) == 12 ==>
+//@        atoiOK(substr(tokVal(p.lexer, old(cn(p)) + 2), 1, len(tokVal(p.lexer, old(cn(p)) + 2))))
+//@        && e.Value.(*updogv1.Query_Expression_Eq).Eq.Placeholder == atoiVal(substr(tokVal(p.lexer, old(cn(p)) + 2), 1, len(tokVal(p.lexer, old(cn(p)) + 2))))
+//@        && e.Value.(*updogv1.Query_Expression_Eq).Eq.Placeholder >= 1 && e.Value.(*updogv1.Query_Expression_Eq).Eq.Value == ""
+//@   ensures [C09] value_or_placeholder: tokTyp(p.lexer, old(cn(p)) + 2) == 12 || (tokTyp(p.lexer, old(cn(p)) + 2) == 11 && e.Value.(*updogv1.Query_Expression_Eq).Eq.Placeholder == 0)
+//@   ensures [C09] column_is_the_first_item: tokTyp(p.lexer, old(cn(p))) != 0 ==> e.Value.(*updogv1.Query_Expression_Eq).Eq.Column == tokVal(p.lexer, old(cn(p)))
 //@ func [C09] (*parser).parseFieldList(p) (fields)
 //@   requires PInv(p)
 //@   modifies p.peekCount; p.token[*]; p.lexer.rd; p.lexer.lastPos
 //@   raises may
-//@   ensures [C09] PInv(p) && len(fields) >= 1
+//@   ensures [C09] PInv(p) && len(fields) >= 1 && p.lexer == old(p.lexer)
+//@   ensures [C09] field_list_is_field_comma_field: cn(p) == old(cn(p)) + 2 * len(fields) - 1
+//@        && (forall j idx(fields) :: fields[j] == tokVal(p.lexer, old(cn(p)) + 2 * j))
+//@        && (forall j int :: 0 <= j && j < len(fields) - 1 ==> tokTyp(p.lexer, old(cn(p)) + 2 * j + 1) == 8)
+//@   ensures [C09] list_ends_where_no_comma_follows: tokTyp(p.lexer, cn(p)) != 8
 //@   loop 1
-//@     invariant PInv(p) && len(fields) >= 1
+//@     invariant PInv(p) && len(fields) >= 1 && p.lexer == old(p.lexer) && p.peekCount == 0
 //@     invariant arr(fields) != nil && !(arr(fields) in old($alloc))
+//@     invariant cn(p) == old(cn(p)) + 2 * len(fields) - 1
+//@     invariant forall j idx(fields) :: fields[j] == tokVal(p.lexer, old(cn(p)) + 2 * j)
+//@     invariant forall j int :: 0 <= j && j < len(fields) - 1 ==> tokTyp(p.lexer, old(cn(p)) + 2 * j + 1) == 8
 
 //@ func [C09] decodeString(s) (result)
 //@ func [C09] decodePlaceholder(s) (result)
+//@   ensures [C09] number_is_returned_as_written: len(s) >= 2 && atoiOK(substr(s, 1, len(s))) ==> result == atoiVal(substr(s, 1, len(s)))
+//@   ensures [C09] not_a_number_is_zero: !(len(s) >= 2 && atoiOK(substr(s, 1, len(s)))) ==> result == 0
 
 // parse: T3 (a query exactly when there is no error), T4 (the whole input was consumed: the next item is EOF)
 //@ func [C09] (*parser).parse(p) (pq, err)
